@@ -9,6 +9,7 @@ mod c05;
 mod c06;
 mod c07;
 mod c08;
+mod c09;
 mod c11;
 mod c12;
 mod c13;
@@ -27,6 +28,7 @@ fn main() {
         "C06" => Some(c06::check()),
         "C07" => Some(c07::check()),
         "C08" => Some(c08::check()),
+        "C09" => Some(c09::check()),
         "C11" => Some(c11::check()),
         "C12" => Some(c12::check()),
         "C13" => Some(c13::check()),
